@@ -84,6 +84,9 @@ func ReadBlockFrom(r io.Reader) (int64, [][]string, error) {
 
 func ValidateBlockBytes(b []byte) (err error) {
 	var off int
+	if len(b) < 4 {
+		return fmt.Errorf("invalid block")
+	}
 	n := int(binary.BigEndian.Uint32(b))
 	off += 4
 	for i := 0; i < n; i++ {
@@ -92,6 +95,9 @@ func ValidateBlockBytes(b []byte) (err error) {
 			return err
 		}
 		off += m
+	}
+	if off != len(b) {
+		return fmt.Errorf("invalid block: %d trailing bytes", len(b)-off)
 	}
 	return nil
 }
